@@ -44,7 +44,7 @@ deriving DecidableEq, Repr
 
 def argNat? : List Val → M (Option Nat)
   | [] => pure Option.none
-  | [.int n] => if n < 0 then raise .unmodelled else pure (some n.toNat)
+  | [.int n] => if n < 0 || n > 4096 then raise .unmodelled else pure (some n.toNat)
   | [.none] => pure Option.none
   | _ => raise .unmodelled
 
